@@ -668,3 +668,414 @@ Print Assumptions C15_hash_run_all_ok_never_oom.
 Example C15_hash_run_never_oom_nonvacuous :
   (let '(rs, h', _) := hash_run all_ok hash_primes [HInsert 5; HInsert 6; HRemove 9; HRemove 5] hash_empty 0%nat in (rs, hash_keys h')) = ([Ok; Ok; Invalid; Ok], [6]).
 Proof. vm_compute. reflexivity. Qed.
+
+(* -------------------------------------------------------------------------------- joint JitAllocator model, whole scripts *)
+From Verif Require OomTxn.JitJointRun.
+
+(* The hypothesis valid_ptr of the release / shrink theorems is decided by an executable procedure (evaluated by the model on
+   every script operation, so the joint run needs no hypothesis on the script). *)
+Theorem C15_valid_ptr_decided :
+  forall (c : JitModel.config) (st : JitModel.state) (id off : Z), valid_ptrb c st id off = true <-> JitProofs.valid_ptr c st id off.
+Proof. exact JitJointRun.valid_ptrb_spec. Qed.
+Print Assumptions C15_valid_ptr_decided.
+
+(* ANY script of alloc / release / shrink / query / reset operations (any sizes, any pointers, soft and hard resets), ANY pair of mmap / malloc oracles, from the
+   initial state: C09's allocator invariant and C15's view accounting hold at the end, and there is exactly one block record and
+   exactly (1 or 2) views per block that C09's model holds - the joint model never leaks a view or a record and never loses one.
+   No valid_ptr hypothesis, no reachability hypothesis; the id -> handle map is part of the model state. *)
+Theorem C15_jit_run_no_leak :
+  forall (okv okh : nat -> bool) (dual : bool) (c : JitModel.config) (ops : list jop) (rs : list JitModel.result) (j' : jst),
+    JitProofs.cfg_ok c -> jit_run okv okh dual c ops (jst_init c) = (rs, j') ->
+    JitProofs.ginv c (j_st j') /\ vms_acct (j_vm j') /\
+    vs_heap (j_vm j') = length (JitModel.blocks (j_st j')) /\
+    length (vs_views (j_vm j')) = ((if dual then 2 else 1) * length (JitModel.blocks (j_st j')))%nat.
+Proof. intros okv okh dual. destruct dual; exact (JitJointRun.jit_run_from_init okv okh _). Qed.
+Print Assumptions C15_jit_run_no_leak.
+
+(* ... and the invariant behind it is kept by every single step from any state that satisfies it (frame: an operation on a pointer
+   that is not valid changes nothing) *)
+Theorem C15_jit_step_inv :
+  forall (okv okh : nat -> bool) (dual : bool) (c : JitModel.config) (op : jop) (j : jst) (r : JitModel.result) (j' : jst),
+    JitProofs.cfg_ok c -> JitJointRun.jinv dual c j -> jit_step okv okh dual c op j = (r, j') ->
+    JitJointRun.jinv dual c j' /\
+    (match op with
+     | JRelease id off | JShrink id off _ => valid_ptrb c (j_st j) id off = false -> j' = j
+     | JQuery _ _ => j' = j
+     | JAlloc _ | JReset _ => True
+     end).
+Proof.
+  intros okv okh dual c op j r j' Hc I E. split; [exact (JitJointRun.jit_step_inv okv okh dual c op j r j' Hc I E)|].
+  destruct op as [size|id off|id off ns|hard|id off]; [constructor| | |constructor|cbn [jit_step] in E; inversion E; reflexivity]; intros VB; cbn [jit_step] in E; rewrite VB in E; cbn [andb] in E; inversion E; reflexivity.
+Qed.
+Print Assumptions C15_jit_step_inv.
+
+(* three blocks are created (the second only at the second attempt: its malloc fails and the views are rolled back), the first release leaves
+   the pool's empty block, the second deletes block 2 with its two views; a release of a pointer that is not valid is refused *)
+Example C15_jit_run_nonvacuous :
+  let cfg := JitModel.mkConfig 64 1 65536 true false JitModel.fixed in
+  let '(rs, j) := jit_run all_ok (fun k => negb (k =? 1)%nat) true cfg
+                    [JAlloc 2000000; JAlloc 2000000; JAlloc 2000000; JAlloc 5000000; JRelease 0 64; JRelease 2 64; JRelease 1 128; JShrink 1 64 64] (jst_init cfg) in
+  (map (fun r => match r with JitModel.RAlloc e _ _ _ | JitModel.RRelease e _ _ | JitModel.RShrink e _ _ => e | _ => JitModel.NotInitialized end) rs,
+   length (JitModel.blocks (j_st j)), vs_heap (j_vm j), length (vs_views (j_vm j)), j_bm j) =
+  ([JitModel.Ok; JitModel.OutOfMemory; JitModel.Ok; JitModel.Ok; JitModel.Ok; JitModel.Ok; JitModel.InvalidArgument; JitModel.Ok],
+   2%nat, 2%nat, 4%nat, [(2, 3%nat); (1, 2%nat); (0, 0%nat)]).
+Proof. vm_compute. reflexivity. Qed.
+
+(* reset: a soft reset keeps (wiped) the first block of the pool with its two views, a hard reset leaves nothing *)
+Example C15_jit_reset_nonvacuous :
+  let cfg := JitModel.mkConfig 64 1 65536 true false JitModel.fixed in
+  let sh := fun x : list JitModel.result * jst => (length (JitModel.blocks (j_st (snd x))), vs_heap (j_vm (snd x)), length (vs_views (j_vm (snd x)))) in
+  sh (jit_run all_ok all_ok true cfg [JAlloc 2000000; JAlloc 2000000; JAlloc 5000000] (jst_init cfg)) = (3, 3, 6)%nat /\
+  sh (jit_run all_ok all_ok true cfg [JAlloc 2000000; JAlloc 2000000; JAlloc 5000000; JReset false] (jst_init cfg)) = (1, 1, 2)%nat /\
+  sh (jit_run all_ok all_ok true cfg [JAlloc 2000000; JAlloc 2000000; JAlloc 5000000; JReset true; JAlloc 64] (jst_init cfg)) = (1, 1, 2)%nat /\
+  sh (jit_run all_ok all_ok true cfg [JAlloc 2000000; JAlloc 2000000; JAlloc 5000000; JReset true] (jst_init cfg)) = (0, 0, 0)%nat.
+Proof. vm_compute. repeat split; reflexivity. Qed.
+
+(* After ANY script under ANY oracles, a hard reset gives everything back: no block, no view, no block record. *)
+Theorem C15_jit_hard_reset_releases_all :
+  forall (okv okh : nat -> bool) (dual : bool) (c : JitModel.config) (ops : list jop) (rs : list JitModel.result) (j1 : jst)
+         (r : JitModel.result) (j2 : jst),
+    JitProofs.cfg_ok c -> jit_run okv okh dual c ops (jst_init c) = (rs, j1) -> jit_step okv okh dual c (JReset true) j1 = (r, j2) ->
+    JitModel.blocks (j_st j2) = [] /\ vs_views (j_vm j2) = [] /\ vs_heap (j_vm j2) = 0%nat.
+Proof.
+  intros okv okh dual c ops rs j1 r j2 Hc E1 E2.
+  destruct (JitJointRun.jit_run_no_leak okv okh dual c ops _ _ _ Hc (JitJointRun.jinv_init dual c Hc) E1) as [I1 _].
+  exact (JitJointRun.jit_hard_reset_releases_all okv okh dual c j1 r j2 Hc I1 E2).
+Qed.
+Print Assumptions C15_jit_hard_reset_releases_all.
+
+(* An allocation that answers kOutOfMemory leaves the WHOLE joint state as it was: C09's block ids, next id, live spans and
+   statistics, C15's views and block records, and the id -> handle map. *)
+Theorem C15_jit_alloc_oom_frame :
+  forall (okv okh : nat -> bool) (dual : bool) (c : JitModel.config) (size : Z) (j : jst) (r : JitModel.result) (j' : jst),
+    JitProofs.cfg_ok c -> JitJointRun.jinv dual c j -> jit_step okv okh dual c (JAlloc size) j = (r, j') ->
+    JitJointRun.res_err r = Some JitModel.OutOfMemory ->
+    JitJointRun.bids (j_st j') = JitJointRun.bids (j_st j) /\ JitModel.nextid (j_st j') = JitModel.nextid (j_st j) /\
+    JitProofs.all_live (JitModel.blocks (j_st j')) = JitProofs.all_live (JitModel.blocks (j_st j)) /\
+    JitModel.statistics c (j_st j') = JitModel.statistics c (j_st j) /\
+    vs_views (j_vm j') = vs_views (j_vm j) /\ vs_heap (j_vm j') = vs_heap (j_vm j) /\ j_bm j' = j_bm j.
+Proof. exact JitJointRun.jit_alloc_oom_frame. Qed.
+Print Assumptions C15_jit_alloc_oom_frame.
+
+(* ... and when neither mmap nor malloc fails no operation of any script answers kOutOfMemory (never spurious). *)
+Theorem C15_jit_run_all_ok_never_oom :
+  forall (dual : bool) (c : JitModel.config) (ops : list jop) (j : jst) (rs : list JitModel.result) (j' : jst),
+    jit_run all_ok all_ok dual c ops j = (rs, j') -> Forall (fun r => JitJointRun.res_err r <> Some JitModel.OutOfMemory) rs.
+Proof. exact JitJointRun.jit_run_all_ok_never_oom. Qed.
+Print Assumptions C15_jit_run_all_ok_never_oom.
+
+Example C15_jit_oom_nonvacuous :
+  let cfg := JitModel.mkConfig 64 1 65536 true false JitModel.fixed in
+  map JitJointRun.res_err (fst (jit_run (fun k => negb (k =? 0)%nat) all_ok false cfg [JAlloc 100; JAlloc 100] (jst_init cfg)))
+    = [Some JitModel.OutOfMemory; Some JitModel.Ok] /\
+  map JitJointRun.res_err (fst (jit_run all_ok all_ok false cfg [JAlloc 100; JAlloc 0; JRelease 0 64; JRelease 0 64] (jst_init cfg)))
+    = [Some JitModel.Ok; Some JitModel.InvalidArgument; Some JitModel.Ok; Some JitModel.InvalidArgument].
+Proof. vm_compute. split; reflexivity. Qed.
+
+(* ArenaVector, every operation, item size and state: when no request fails the operation is refused (kOutOfMemory) EXACTLY when
+   it needs more items than the capacity AND the needed count reaches the 32-bit limit - errors are never spurious, and the
+   overflow refusal never misses. *)
+Theorem C15_vec_all_ok_refusal_exact :
+  forall (isz : Z) (op : vop) (v : vec) (k : nat) (r : result) (v' : vec) (k' : nat),
+    vec_inv v -> vec_step all_ok isz op v k = (r, v', k') ->
+    r <> Invalid /\ (r = Oom <-> v_cap v < vec_need op v /\ max_items <= vec_need op v).
+Proof. exact vec_all_ok_refusal. Qed.
+Print Assumptions C15_vec_all_ok_refusal_exact.
+
+Example C15_vec_refusal_nonvacuous :
+  (let '(r, _, _) := vec_step all_ok 4 (VReserveFit 4294967295) vec_empty 0%nat in r) = Oom /\
+  (let '(r, v, _) := vec_step all_ok 4 (VReserveFit 1000) vec_empty 0%nat in (r, 1000 <=? v_cap v)) = (Ok, true) /\ vec_inv vec_empty.
+Proof. split; [vm_compute; reflexivity|]. split; [vm_compute; reflexivity|]. unfold vec_inv. cbn. lia. Qed.
+
+(* CodeHolder labels / relocations / fixups / embed_label(_delta) / bind, sections, address table, call imm64: when no request fails
+   and the label, relocation and section vectors are below the 32-bit size limit, no operation reports kOutOfMemory. *)
+Theorem C15_holder_all_ok_never_oom :
+  forall (op : cop) (h : holder) (k : nat) (r : result) (h' : holder) (k' : nat),
+    holder_small h -> holder_step all_ok true op h k = (r, h', k') -> r <> Oom.
+Proof. exact holder_all_ok_never_oom. Qed.
+Print Assumptions C15_holder_all_ok_never_oom.
+
+Theorem C15_holder2_all_ok_never_oom :
+  forall (op : cop2) (h : holder2) (k : nat) (r : result) (h' : holder2) (k' : nat),
+    holder2_small h -> holder2_step all_ok true op h k = (r, h', k') -> r <> Oom.
+Proof. exact holder2_all_ok_never_oom. Qed.
+Print Assumptions C15_holder2_all_ok_never_oom.
+
+Example C15_holder2_never_oom_nonvacuous :
+  holder2_small holder2_init /\
+  (let '(r, _, _) := holder2_step all_ok true (CCallAbs 4096) holder2_init 0%nat in r) = Ok /\
+  (let '(r, _, _) := holder2_step (fun k => negb (k =? 1)%nat) true (CCallAbs 4096) holder2_init 0%nat in r) = Oom.
+Proof. split; [repeat split; cbn; lia|]. split; vm_compute; reflexivity. Qed.
+
+(* ConstPool::add, whole scripts: when no request fails no add reports kOutOfMemory (invalid sizes still answer "invalid"). *)
+Theorem C15_pool_run_all_ok_never_oom :
+  forall (ds : list (list Z)) (p : pool) (k : nat) (rs : list (result * option Z)) (p' : pool) (k' : nat),
+    pool_run all_ok ds p k = (rs, p', k') -> ~ In Oom (map fst rs).
+Proof. exact pool_run_all_ok_never_oom. Qed.
+Print Assumptions C15_pool_run_all_ok_never_oom.
+
+(* BaseBuilder new_label / bind / section / nodes / embed_const_pool: when no request fails and the label, section and node-table
+   vectors are below the 32-bit size limit, no operation reports kOutOfMemory. *)
+Theorem C15_builder_all_ok_never_oom :
+  forall (op : bop) (h : holder2) (b : bld) (k : nat) (r : result) (h' : holder2) (b' : bld) (k' : nat),
+    builder_small h b -> builder_step all_ok op h b k = (r, h', b', k') -> r <> Oom.
+Proof. exact builder_all_ok_never_oom. Qed.
+Print Assumptions C15_builder_all_ok_never_oom.
+
+Example C15_builder_never_oom_nonvacuous :
+  builder_small holder2_init bld_init /\
+  (let '(r, _, _, _) := builder_step all_ok BNewLabel holder2_init bld_init 0%nat in r) = Ok /\
+  (let '(r, _, _, _) := builder_step (fun k => negb (k =? 2)%nat) BNewLabel holder2_init bld_init 0%nat in r) = Oom /\
+  map fst (fst (fst (pool_run all_ok [[1; 2; 3; 4]; [1; 2; 3]; [5; 6]] pool_empty 0%nat))) = [Ok; Invalid; Ok].
+Proof. split; [repeat split; cbn; lia|]. repeat split; vm_compute; reflexivity. Qed.
+
+(* Frame conditions - what a step must NOT touch.  VirtMem / JitAllocator blocks: every handle other than the released one keeps
+   its views, an allocating step only appends one handle, view ids stay fresh, at most 2 mmap and 1 malloc requests per step, and
+   a refused release changes nothing at all. *)
+Theorem C15_vm_step_frame :
+  forall (okv okh : nat -> bool) (op : vmop) (s : vms) (kv kh : nat) (r : result) (s' : vms) (kv' kh' : nat),
+    vm_step okv okh op s kv kh = (r, s', kv', kh') ->
+    (forall i, (i < length (vs_handles s))%nat -> vmop_target op <> Some i -> nth i (vs_handles s') None = nth i (vs_handles s) None) /\
+    length (vs_handles s') = (match vmop_target op with Some _ => length (vs_handles s) | None => S (length (vs_handles s)) end) /\
+    (vs_next s <= vs_next s')%nat /\ (kv <= kv' <= kv + 2)%nat /\ (kh <= kh' <= kh + 1)%nat /\
+    (r <> Ok -> match vmop_target op with Some _ => s' = s | None => True end).
+Proof. exact vm_step_frame. Qed.
+Print Assumptions C15_vm_step_frame.
+
+(* RA home slots: a step on register w leaves the home of every other register alone, appends at most the slot of w, adds at most
+   the reference to w, and makes at most 2 requests. *)
+Theorem C15_ra_step_frame :
+  forall (ok : nat -> bool) (op : raop) (s : rastack) (k : nat) (r : result) (s' : rastack) (k' : nat),
+    ra_step ok op s k = (r, s', k') ->
+    (forall w', w' <> raop_reg op -> has_home s' w' = has_home s w') /\
+    (ra_slots s' = ra_slots s \/ ra_slots s' = ra_slots s ++ [raop_reg op]) /\
+    (ra_refs s' = ra_refs s \/ (op = RAsMem (raop_reg op) /\ ra_refs s' = raop_reg op :: ra_refs s)) /\
+    (k <= k' <= k + 2)%nat.
+Proof. exact ra_step_frame. Qed.
+Print Assumptions C15_ra_step_frame.
+
+Example C15_frames_nonvacuous :
+  (let '(_, s', _, _) := vm_step all_ok all_ok (VRel 0) (let '(_, s1, _, _) := vm_run all_ok all_ok [VMap; VDual] vms_init 0%nat 0%nat in s1) 2%nat 0%nat in
+   vs_handles s') = [None; Some [1; 2]%nat] /\
+  (let '(_, s', _) := ra_step all_ok (RGet 1) (ras_init 3) 0%nat in ra_home s') = [false; true; false].
+Proof. vm_compute. split; reflexivity. Qed.
+
+(* ------------------------------------------------------------------------------- ConstPool: no two constants share a byte *)
+From Verif Require OomTxn.PoolDisjoint.
+
+(* ConstPool::add under EVERY oracle (the node, any gap record, any shared sub-constant may fail): the invariant "no byte of the pool
+   is covered by two non-shared constants, or by a constant and a gap; nothing lies beyond the pool size; every gap record of
+   class i has size 2^i" is kept.  cov_all p x counts the constants and gaps that cover byte x. *)
+Theorem C15_pool_add_disjoint :
+  forall (ok : nat -> bool) (d : list Z) (p : pool) (k : nat) (r : result) (o : option Z) (p' : pool) (k' : nat),
+    PoolDisjoint.pool_ok p -> pool_add ok d p k = (r, o, p', k') -> PoolDisjoint.pool_ok p'.
+Proof. exact PoolDisjoint.pool_add_disjoint. Qed.
+Print Assumptions C15_pool_add_disjoint.
+
+(* ... hence for whole scripts from the empty pool, whatever fails on the way: every byte is covered at most once and everything
+   is inside the pool.  (The python judge checks the same on the node dump of the REAL pool after every script.) *)
+Theorem C15_pool_run_disjoint :
+  forall (ok : nat -> bool) (ds : list (list Z)) (rs : list (result * option Z)) (p' : pool) (k' : nat),
+    pool_run ok ds pool_empty 0%nat = (rs, p', k') ->
+    (forall x, (PoolDisjoint.cov_all p' x <= 1)%nat) /\ (forall x, p_size p' <= x -> PoolDisjoint.cov_all p' x = 0%nat) /\
+    PoolDisjoint.gaps_sized (p_gaps p').
+Proof.
+  intros ok ds rs p' k' E.
+  destruct (PoolDisjoint.pool_run_disjoint ok ds pool_empty 0%nat rs p' k' PoolDisjoint.pool_empty_ok E) as [G [C [B _]]]. auto.
+Qed.
+Print Assumptions C15_pool_run_disjoint.
+
+(* the counting function sees an overlap when there is one; in the run the failed request is the gap record for bytes 1..3 (the
+   failure is absorbed, the gap is dropped: those bytes are covered by nothing), every constant byte is covered exactly once *)
+Example C15_pool_disjoint_nonvacuous :
+  PoolDisjoint.cov_all (mkpool [[mkcnode [1] 0 false; mkcnode [2] 0 false]] [] 0 1 1 1) 0 = 2%nat /\
+  (let '(rs, p', _) := pool_run (fun k => negb (k =? 1)%nat) [[1]; [2; 3; 4; 5]; [6; 7]; [8]] pool_empty 0%nat in
+   (map fst rs, map (PoolDisjoint.cov_all p') [0; 1; 2; 3; 4; 5; 6; 7; 8], p_size p')) =
+  ([Ok; Ok; Ok; Ok], [1; 0; 0; 0; 1; 1; 1; 1; 1]%nat, 11).
+Proof. vm_compute. split; reflexivity. Qed.
+
+(* After ANY script from the empty pool under ANY oracle, a constant that is not yet in the pool and whose add() succeeds - whatever
+   else fails during that add - is placed at a multiple of its size and lies inside the pool (the judge rule "pool/offset", proved
+   for the model). *)
+Theorem C15_pool_fresh_offset_aligned_inside :
+  forall (ok : nat -> bool) (ds : list (list Z)) (rs : list (result * option Z)) (p : pool) (k : nat)
+         (d : list Z) (off : Z) (p' : pool) (k' : nat),
+    pool_run ok ds pool_empty 0%nat = (rs, p, k) -> pool_lookup p d = None ->
+    pool_add ok d p k = (Ok, Some off, p', k') ->
+    off mod Z.of_nat (length d) = 0 /\ off + Z.of_nat (length d) <= p_size p'.
+Proof.
+  intros ok ds rs p k d off p' k' R LK E.
+  destruct (PoolDisjoint.pool_run_aligned ok ds pool_empty 0%nat rs p k PoolDisjoint.pool_empty_ok PoolDisjoint.pool_empty_aligned R) as [I A].
+  destruct (PoolDisjoint.pool_add_fresh_offset ok d p k off p' k' I A LK E) as [M [B _]]. auto.
+Qed.
+Print Assumptions C15_pool_fresh_offset_aligned_inside.
+
+Example C15_pool_fresh_offset_nonvacuous :
+  (let '(_, p, k) := pool_run (fun k => negb (k =? 1)%nat) [[1]] pool_empty 0%nat in
+   (pool_lookup p [2; 3; 4; 5], let '(r, o, p', _) := pool_add (fun k => negb (k =? 1)%nat) [2; 3; 4; 5] p k in (r, o, p_size p'))) =
+  (None, (Ok, Some 4, 8)).
+Proof. vm_compute. reflexivity. Qed.
+
+(* ------------------------------------------------------------------------------------------------------------- Arena *)
+From Verif Require OomTxn.ArenaProofs.
+
+(* Arena::alloc_oneshot / _alloc_oneshot under EVERY heap oracle.  A refusal leaves the blocks up to the current one, the bytes
+   still free in the current block and the block-size shift exactly as they were - everything handed out before stays valid; only
+   spare blocks behind the current one (left by a soft reset) are given back; at most one malloc; a refusal without a malloc
+   happens only for sizes at the end of the address space.  A success takes the bytes from the current block or from the start of
+   a block that is at least as large as the request. *)
+Theorem C15_arena_alloc_atomic :
+  forall (okh : nat -> bool) (size : Z) (a : arena) (k : nat) (r : result) (a' : arena) (k' : nat),
+    arena_alloc okh size a k = (r, a', k') ->
+    r <> Invalid /\ (k <= k' <= S k)%nat /\ a_min a' = a_min a /\
+    (r = Oom -> a_pre a' = a_pre a /\ a_rem a' = a_rem a /\ a_shift a' = a_shift a /\ a_nxt a' = [] /\ (k' = k -> size_max - 48 < size)) /\
+    (r = Ok ->
+       (a_pre a' = a_pre a /\ size <= a_rem a /\ a_rem a' = a_rem a - size /\ a_nxt a' = a_nxt a /\ k' = k) \/
+       (exists b, a_pre a' = a_pre a ++ [b] /\ size <= b /\ a_rem a' = b - size /\ a_rem a < size /\
+                  (length (a_nxt a') <= length (a_nxt a))%nat)).
+Proof. exact ArenaProofs.arena_alloc_atomic. Qed.
+Print Assumptions C15_arena_alloc_atomic.
+
+(* Where the bytes of a successful allocation lie: in the current block exactly behind everything handed out from it before, or at
+   offset 0 of a block that was not in use - allocations made between two resets never overlap (the harness compares the pointers
+   of the REAL arena on every script). *)
+Theorem C15_arena_alloc_region :
+  forall (okh : nat -> bool) (size : Z) (a : arena) (k : nat) (a' : arena) (k' : nat),
+    arena_alloc okh size a k = (Ok, a', k') ->
+    (arena_last size a' = ((length (a_pre a) - 1)%nat, ArenaProofs.arena_used a) /\
+     ArenaProofs.arena_used a' = ArenaProofs.arena_used a + size /\ a_pre a' = a_pre a) \/
+    (arena_last size a' = (length (a_pre a), 0) /\ ArenaProofs.arena_used a' = size /\ length (a_pre a') = S (length (a_pre a))).
+Proof. exact ArenaProofs.arena_alloc_region. Qed.
+Print Assumptions C15_arena_alloc_region.
+
+(* The free bytes are always the tail of the current block (invariant of every step, every oracle), ... *)
+Theorem C15_arena_step_inv :
+  forall (okh : nat -> bool) (op : aop) (a : arena) (k : nat) (r : result) (a' : arena) (k' : nat),
+    (match op with AAlloc size => 0 <= size | _ => True end) -> ArenaProofs.arena_inv a ->
+    arena_step okh op a k = (r, a', k') -> ArenaProofs.arena_inv a'.
+Proof. exact ArenaProofs.arena_step_inv. Qed.
+Print Assumptions C15_arena_step_inv.
+
+(* ... heap blocks: an allocation adds at most one (and then it made a request), a refused one adds none, a hard reset gives
+   everything back, a soft reset keeps everything, ... *)
+Theorem C15_arena_step_blocks :
+  forall (okh : nat -> bool) (op : aop) (a : arena) (k : nat) (r : result) (a' : arena) (k' : nat),
+    arena_step okh op a k = (r, a', k') ->
+    match op with
+    | AAlloc _ => (ArenaProofs.arena_blocks a' <= S (ArenaProofs.arena_blocks a))%nat /\
+                  (r = Oom -> (ArenaProofs.arena_blocks a' <= ArenaProofs.arena_blocks a)%nat) /\
+                  ((ArenaProofs.arena_blocks a < ArenaProofs.arena_blocks a')%nat -> k' = S k)
+    | AReset true => ArenaProofs.arena_blocks a' = 0%nat
+    | AReset false => ArenaProofs.arena_blocks a' = ArenaProofs.arena_blocks a
+    end.
+Proof. exact ArenaProofs.arena_step_blocks. Qed.
+Print Assumptions C15_arena_step_blocks.
+
+(* ... and when no malloc fails an allocation is refused only for sizes at the end of the address space. *)
+Theorem C15_arena_alloc_all_ok :
+  forall (size : Z) (a : arena) (k : nat) (r : result) (a' : arena) (k' : nat),
+    arena_alloc all_ok size a k = (r, a', k') -> r = Oom -> size_max - 48 < size.
+Proof. exact ArenaProofs.arena_alloc_all_ok. Qed.
+Print Assumptions C15_arena_alloc_all_ok.
+
+(* first block 2^11 - 32 - 16 = 2000 usable bytes; the second malloc fails: the refused allocation changes nothing, the next one
+   succeeds in a new block; soft reset keeps both blocks, the big request then releases the small spare block *)
+Example C15_arena_nonvacuous :
+  let step := fun (x : arena * nat) op => let '(_, a', k') := arena_step (fun k => negb (k =? 1)%nat) op (fst x) (snd x) in (a', k') in
+  let st := fun ops => fst (fold_left step ops (arena_init 11, 0%nat)) in
+  (a_pre (st [AAlloc 1000]), a_rem (st [AAlloc 1000])) = ([2000], 1000) /\
+  st [AAlloc 1000; AAlloc 1200] = st [AAlloc 1000] /\
+  (a_pre (st [AAlloc 1000; AAlloc 1200; AAlloc 1200]), a_rem (st [AAlloc 1000; AAlloc 1200; AAlloc 1200])) = ([2000; 4048], 2848) /\
+  (let a := st [AAlloc 1000; AAlloc 1200; AAlloc 1200; AReset false] in (a_pre a, a_rem a, a_nxt a)) = ([2000], 2000, [4048]) /\
+  ArenaProofs.arena_blocks (st [AAlloc 1000; AAlloc 1200; AAlloc 1200; AReset true]) = 0%nat /\
+  ArenaProofs.arena_inv (arena_init 11).
+Proof. vm_compute. repeat split; try reflexivity; try discriminate; try constructor. Qed.
+
+(* Any sequence of allocations without a reset in between, any heap oracle, from the initial arena (any first block size): the
+   regions (block, offset, size) of the allocations that succeeded are pairwise disjoint - refused allocations in between change
+   nothing about that.  (What the harness checks on the pointers of the real arena, proved for the model.) *)
+Theorem C15_arena_allocs_disjoint :
+  forall (okh : nat -> bool) (shift : Z) (sizes : list Z) (rs : list (nat * Z * Z)) (a' : arena) (k' : nat),
+    Forall (fun s => 0 <= s) sizes -> ArenaProofs.arena_allocs okh sizes (arena_init shift) 0%nat = (rs, a', k') ->
+    ForallOrdPairs ArenaProofs.rdisj rs.
+Proof.
+  intros okh shift sizes rs a' k' W E. apply (ArenaProofs.arena_allocs_disjoint okh sizes (arena_init shift) 0%nat rs a' k' W); [|exact E].
+  repeat split; cbn; try lia. constructor.
+Qed.
+Print Assumptions C15_arena_allocs_disjoint.
+
+Example C15_arena_allocs_nonvacuous :
+  fst (fst (ArenaProofs.arena_allocs (fun k => negb (k =? 1)%nat) [1000; 1200; 800; 1200; 8] (arena_init 11) 0%nat)) =
+  [(0%nat, 0, 1000); (0%nat, 1000, 800); (1%nat, 0, 1200); (1%nat, 1200, 8)].
+Proof. vm_compute. reflexivity. Qed.
+
+(* Shared sub-constants (the halves, quarters, ... of a constant that can be looked up on their own): after ANY script under ANY
+   oracle every shared node stores exactly the bytes that a real (non-shared) constant of the pool stores at the same pool offsets
+   (the judge rule "pool/shared-node-wrong", proved for the model; with C15_pool_run_disjoint that constant is unique). *)
+Theorem C15_pool_run_shared_ok :
+  forall (ok : nat -> bool) (ds : list (list Z)) (rs : list (result * option Z)) (p' : pool) (k' : nat),
+    pool_run ok ds pool_empty 0%nat = (rs, p', k') ->
+    forall c, PoolDisjoint.node_in (p_trees p') c -> c_shared c = true ->
+      exists w, PoolDisjoint.node_in (p_trees p') w /\ c_shared w = false /\ c_off w <= c_off c /\
+                c_data c = slice (c_data w) (Z.to_nat (c_off c - c_off w)) (length (c_data c)).
+Proof.
+  intros ok ds rs p' k' E.
+  exact (PoolDisjoint.pool_run_shared_ok ok ds pool_empty 0%nat rs p' k' PoolDisjoint.pool_empty_trees_len PoolDisjoint.pool_empty_shared_ok E).
+Qed.
+Print Assumptions C15_pool_run_shared_ok.
+
+Example C15_pool_shared_nonvacuous :
+  (let '(_, p', _) := pool_run all_ok [[1; 2; 3; 4; 5; 6; 7; 8; 9; 10; 11; 12; 13; 14; 15; 16]] pool_empty 0%nat in
+   map (fun c => (c_data c, c_off c, c_shared c)) (nth 3 (p_trees p') [])) = [([1; 2; 3; 4; 5; 6; 7; 8], 0, true); ([9; 10; 11; 12; 13; 14; 15; 16], 8, true)].
+Proof. vm_compute. reflexivity. Qed.
+
+(* ... and the same after ANY script of allocations, refused allocations, soft and hard resets: the allocations made after it
+   (no reset in between) get pairwise disjoint regions. *)
+Theorem C15_arena_after_script_disjoint :
+  forall (okh : nat -> bool) (shift : Z) (ops : list aop) (sizes : list Z) (rs0 : list result) (a : arena) (k : nat)
+         (rs : list (nat * Z * Z)) (a' : arena) (k' : nat),
+    Forall ArenaProofs.aop_wf ops -> Forall (fun s => 0 <= s) sizes ->
+    ArenaProofs.arena_run okh ops (arena_init shift) 0%nat = (rs0, a, k) -> ArenaProofs.arena_allocs okh sizes a k = (rs, a', k') ->
+    ForallOrdPairs ArenaProofs.rdisj rs.
+Proof. exact ArenaProofs.arena_after_script_disjoint. Qed.
+Print Assumptions C15_arena_after_script_disjoint.
+
+Example C15_arena_after_script_nonvacuous :
+  let okh := fun k => negb (k =? 1)%nat in
+  let '(_, a, k) := ArenaProofs.arena_run okh [AAlloc 1000; AAlloc 1200; AAlloc 1200; AReset false] (arena_init 11) 0%nat in
+  fst (fst (ArenaProofs.arena_allocs okh [1504; 504; 4000] a k)) = [(0%nat, 0, 1504); (1%nat, 0, 504); (2%nat, 0, 4000)].
+Proof. vm_compute. reflexivity. Qed.
+
+(* Whole arena scripts (allocations, refused allocations, soft and hard resets), any oracle, from the initial arena: the number of
+   heap blocks the arena holds never exceeds the number of malloc requests it made - no block appears from nowhere, and since
+   C15_arena_step_blocks shows a hard reset returns every block, nothing is ever lost either. *)
+Theorem C15_arena_run_blocks :
+  forall (okh : nat -> bool) (shift : Z) (ops : list aop) (rs : list result) (a' : arena) (k' : nat),
+    ArenaProofs.arena_run okh ops (arena_init shift) 0%nat = (rs, a', k') ->
+    (ArenaProofs.arena_blocks a' <= k')%nat /\ length rs = length ops.
+Proof.
+  intros okh shift ops rs a' k' E.
+  destruct (ArenaProofs.arena_run_blocks okh ops (arena_init shift) 0%nat rs a' k' (le_n 0) E) as [A [_ B]]. auto.
+Qed.
+Print Assumptions C15_arena_run_blocks.
+
+Example C15_arena_run_blocks_nonvacuous :
+  let '(rs, a, k) := ArenaProofs.arena_run (fun k => negb (k =? 1)%nat) [AAlloc 1000; AAlloc 1200; AAlloc 1200; AReset false; AAlloc 4000] (arena_init 11) 0%nat in
+  (rs, ArenaProofs.arena_blocks a, k) = ([Ok; Oom; Ok; Ok; Ok], 2%nat, 3%nat).
+Proof. vm_compute. reflexivity. Qed.
+
+(* CodeHolder labels / relocations / fixups / embed_label(_delta) / bind, WHOLE scripts: when no request fails and the label and
+   relocation vectors stay below the 32-bit limit for the whole script (length + number of operations), no operation reports
+   kOutOfMemory - the size bound of C15_holder_all_ok_never_oom threaded through the run. *)
+Theorem C15_holder_run_all_ok_never_oom :
+  forall (ops : list cop) (h : holder) (k : nat) (rs : list result) (h' : holder) (k' : nat),
+    Z.of_nat (length (ho_labels h)) + Z.of_nat (length ops) + 2 < max_items ->
+    Z.of_nat (length (ho_relocs h)) + Z.of_nat (length ops) + 2 < max_items ->
+    holder_run all_ok true ops h k = (rs, h', k') -> ~ In Oom rs.
+Proof. exact holder_run_all_ok_never_oom. Qed.
+Print Assumptions C15_holder_run_all_ok_never_oom.
+
+Example C15_holder_run_never_oom_nonvacuous :
+  (let '(rs, _, _) := holder_run all_ok true [CNewLabel; CNewLabel; CEmbedLabel 0; CBind 0; CNewReloc] holder_empty 0%nat in rs) = [Ok; Ok; Ok; Ok; Ok] /\
+  Z.of_nat (length (ho_labels holder_empty)) + 5 + 2 < max_items.
+Proof. split; [vm_compute; reflexivity|cbn; unfold max_items; lia]. Qed.
